@@ -291,3 +291,21 @@ def entails(pc, goal, limit=14):
         if _beval(p, val) and not _beval(g, val):
             return False
     return True
+
+
+def exists_form(t):
+    """(sequence, conditions) when the truth of t says "some element of the sequence satisfies the conditions": the truthiness of a
+    filtering comprehension `[x for x in S if C]`, `any(C for x in S)`, `any([.. for x in S if C])`; else None.  Ids stripped."""
+    from .sval import strip_ids, norm_pc
+    t = strip_ids(t)
+    if is_call(t, 'builtins.any') and len(t[3]) == 1:
+        g = t[3][0][1]
+        if g[0] in ('list', 'tuple') and len(g[1]) == 1 and isinstance(g[1][0], tuple) and g[1][0][0] == 'each':
+            e = g[1][0]
+            return e[2], norm_pc(tuple(e[3]) + ((e[4], True),))
+        return None
+    if t[0] in ('list', 'tuple') and len(t[1]) == 1 and isinstance(t[1][0], tuple) and t[1][0][0] == 'each':
+        e = t[1][0]
+        if e[4] == ('elem', e[2], 0):
+            return e[2], norm_pc(tuple(e[3]))
+    return None
